@@ -82,6 +82,58 @@ pub fn wincon_step(imp: &mut WinconBytes, model: &mut RunModel, chunk: &[u8]) ->
     Ok(real)
 }
 
+/// SGR codes a conforming terminal knows but the property statements leave out (blink, the single-attribute resets,
+/// default underline colour).  The code under test may ignore them or follow the terminal - nothing else.
+pub const UNLISTED_CODES: [&str; 10] = ["5", "6", "22", "23", "24", "25", "27", "28", "29", "59"];
+
+/// Cases for the "left-out codes" sweeps: (stream containing one left-out code, the same stream without it).
+/// Each stream is `prefix a CSI ... m b`, the sequence holding the code alone, before, after and between listed groups.
+pub fn unlisted_code_cases() -> Vec<(Vec<u8>, Vec<u8>)> {
+    let prefixes: [&[u8]; 3] = [b"", b"\x1b[1;2;3;4;7;8;9;31;44;58;5;9m", b"\x1b[4:3;38;2;1;2;3;48;5;100m"];
+    let listed = ["1", "2", "7", "9", "31", "44", "97", "0", "39", "49", "38;5;9", "48;2;4;5;6", "58;2;7;8;9", "10", "255"];
+    let build = |prefix: &[u8], groups: &[&str]| -> Vec<u8> {
+        let mut v = prefix.to_vec();
+        v.push(b'a');
+        if !groups.is_empty() {
+            v.extend(seq_of(groups));
+        }
+        v.push(b'b');
+        v
+    };
+    let mut out = vec![];
+    for prefix in prefixes {
+        for u in UNLISTED_CODES {
+            out.push((build(prefix, &[u]), build(prefix, &[])));
+            for g in listed {
+                out.push((build(prefix, &[u, g]), build(prefix, &[g])));
+                out.push((build(prefix, &[g, u]), build(prefix, &[g])));
+                for g2 in ["1", "31", "48;5;21"] {
+                    out.push((build(prefix, &[g, u, g2]), build(prefix, &[g, g2])));
+                }
+            }
+        }
+    }
+    out
+}
+
+/// Run one "left-out code" case through the real extractor: its runs must be what a conforming terminal shows or
+/// what it shows when the left-out code is not there.
+pub fn unlisted_case_runs(with: &[u8], without: &[u8]) -> Result<(), String> {
+    let real = merge_real(WinconBytes::new().extract_next(with).collect());
+    let conform: Vec<(Tuple, String)> = RunModel::default().feed(with).into_iter().map(|(s, t)| (sgr_tuple(&s), t)).collect();
+    let ignore: Vec<(Tuple, String)> = RunModel::default().feed(without).into_iter().map(|(s, t)| (sgr_tuple(&s), t)).collect();
+    if real != conform && real != ignore {
+        return Err(format!(
+            "style of a run differs: {} -> extractor {:?}; a conforming terminal shows {:?}, and {:?} if the left-out code is ignored",
+            show(with),
+            real,
+            conform,
+            ignore
+        ));
+    }
+    Ok(())
+}
+
 pub fn wincon_clause_of(m: &str) -> String {
     for (pat, c) in [
         ("visible text differs", "text-differs"),
